@@ -22,7 +22,9 @@ pub enum Req {
     Arp { pad: u8 },
     Echo { id: u16, seq: u16, data: Hex, pad: u8 },
     /// neighbour solicitation for the server address (IPv6 scenarios); well-formed NDP options
-    Ns { opts: Hex, unicast: bool },
+    /// `other_dst`: sent to this unicast address instead (a reachability probe through another
+    /// address; the advertisement must still come from the solicited target)
+    Ns { opts: Hex, unicast: bool, other_dst: Option<[u8; 16]> },
     Syn { sport: u16, dport: u16, seq: u32, extra: u16, payload: Hex },
     TcpData { sport: u16, dport: u16, isn: u32, pay: Pay },
     FinAck { sport: u16, dport: u16, seq: u32, ack: u32 },
@@ -72,7 +74,11 @@ pub fn req(v4: bool) -> BoxedStrategy<Req> {
         6 => app_req().prop_map(Pay::App),
         1 => hostile_stun().prop_map(Pay::Stun),
     ];
-    let l2 = if v4 { (0u8..19).prop_map(|pad| Req::Arp { pad }).boxed() } else { (ndp_opts_wf(), any::<bool>()).prop_map(|(opts, unicast)| Req::Ns { opts, unicast }).boxed() };
+    let l2 = if v4 {
+        (0u8..19).prop_map(|pad| Req::Arp { pad }).boxed()
+    } else {
+        (ndp_opts_wf(), any::<bool>(), prop::option::weighted(0.3, any::<[u8; 16]>())).prop_map(|(opts, unicast, other_dst)| Req::Ns { opts, unicast, other_dst }).boxed()
+    };
     prop_oneof![
         2 => l2,
         3 => (any::<u16>(), any::<u16>(), echo_data(), prop_oneof![3 => Just(0u8), 1 => 1u8..20]).prop_map(|(id, seq, data, pad)| Req::Echo { id, seq, data, pad }),
@@ -101,10 +107,18 @@ pub fn realize(sut: &Sut, net: &Net, r: &Req) -> Result<Vec<u8>, String> {
             f.extend(std::iter::repeat(0x55u8).take(*pad as usize));
             f
         }
-        Req::Ns { opts, unicast } => match &net.sip {
+        Req::Ns { opts, unicast, other_dst } => match &net.sip {
             IpAddr::V6(s) => {
                 let mut n = net.clone();
-                if !*unicast {
+                if let Some(o) = other_dst {
+                    // a unicast destination other than the target (never multicast)
+                    let mut o = *o;
+                    if o[0] == 0xff {
+                        o[0] = 0x20;
+                    }
+                    n.sip = IpAddr::V6(std::net::Ipv6Addr::from(o));
+                    n.dmac = net.dmac;
+                } else if !*unicast {
                     // to the solicited-node multicast group of the target
                     let o = s.octets();
                     let mut g = [0u8; 16];
